@@ -193,14 +193,14 @@ fn run_host<H: Host>(mut host: H, c: &MomCfg, cs: &mut MomCensus, tallies: &mut 
         } else if abs_p > 0.02 && abs_p < 0.98 {
             // unsaturated: number of market orders ~ Binomial(n, |p|)
             let mk: u64 = per_trader.values().map(|e| e.0 as u64).sum();
-            tallies.push((mk, c.n_agents as u64, (abs_p * 1000.0).round() / 1000.0));
+            tallies.push((mk, c.n_agents as u64, (abs_p * 1000.0).round() / 1000.0 * m_new.signum()));
             cs.unsaturated_trials += c.n_agents as u64;
         }
         // limit orders ~ Binomial(n, ratio*|p|) whenever that probability is strictly inside (0,1)
         let pl = c.order_ratio * abs_p;
         if m_new != 0.0 && pl > 0.02 && pl < 0.98 {
             let lm: u64 = per_trader.values().map(|e| e.1 as u64).sum();
-            tallies.push((lm, c.n_agents as u64, (pl * 1000.0).round() / 1000.0));
+            tallies.push((lm, c.n_agents as u64, (pl * 1000.0).round() / 1000.0 * m_new.signum()));
             cs.unsaturated_limit_trials += c.n_agents as u64;
         }
         m = m_new;
@@ -350,20 +350,22 @@ pub fn c17(ctx: &Ctx) -> i32 {
     });
     let (cs, tallies, mut violations, keys, samples) = merged.into_inner().unwrap();
     // unsaturated demand: market orders per update ~ Binomial(n, |p|); pool by rounded p
-    let mut pooled: std::collections::BTreeMap<u64, (u64, u64, f64)> = Default::default();
+    // buckets are kept separately for positive and negative momentum (the sign is carried by p)
+    let mut pooled: std::collections::BTreeMap<i64, (u64, u64, f64)> = Default::default();
     for (s, t, p) in &tallies {
-        let e = pooled.entry((p * 50.0).round() as u64).or_insert((0, 0, 0.0));
+        let e = pooled.entry((p * 25.0).round() as i64).or_insert((0, 0, 0.0));
         e.0 += s;
         e.1 += t;
-        e.2 += p * *t as f64; // expectation accumulates exactly per trial
+        e.2 += p.abs() * *t as f64; // expectation accumulates exactly per trial
     }
     let delta = 1e-9 / pooled.len().max(1) as f64;
     let mut bands = Vec::new();
-    for (_, (s, t, exp)) in &pooled {
+    for (bucket, (s, t, exp)) in &pooled {
         let pbar = exp / *t as f64;
+        let _ = bucket;
         let thr = bernstein_t(*t as f64, pbar.clamp(0.01, 0.99), delta) * 1.05;
         let dev = (*s as f64 - exp).abs();
-        bands.push(json!({"mean_p": (pbar * 1000.0).round() / 1000.0, "trials": t, "market_orders": s, "expected": exp.round(), "deviation_over_threshold": ((dev / thr) * 1000.0).round() / 1000.0}));
+        bands.push(json!({"momentum_sign": if *bucket < 0 { "negative" } else { "positive" }, "mean_p": (pbar * 1000.0).round() / 1000.0, "trials": t, "market_orders": s, "expected": exp.round(), "deviation_over_threshold": ((dev / thr) * 1000.0).round() / 1000.0}));
         if dev > thr {
             violations.push(Violation {
                 signature: "C17:momentum:frequency_outside_band".into(),
